@@ -3,6 +3,7 @@
 use crate::engine::{Ctx, Fail};
 use serde_json::Value as J;
 
+pub mod c02;
 pub mod c05;
 pub mod c13;
 pub mod c18;
@@ -16,6 +17,7 @@ pub fn level_of(id: &str) -> &'static str {
 
 pub fn run(ctx: &Ctx) -> bool {
     match ctx.id.as_str() {
+        "C02" => c02::run(ctx),
         "C05" => c05::run(ctx),
         "C13" => c13::run(ctx),
         "C18" => c18::run(ctx),
@@ -26,6 +28,7 @@ pub fn run(ctx: &Ctx) -> bool {
 
 pub fn replay(ctx: &Ctx, id: &str, kind: &str, case: &J) -> Vec<Fail> {
     match id {
+        "C02" => c02::replay(ctx, kind, case),
         "C05" => c05::replay(ctx, kind, case),
         "C13" => c13::replay(ctx, kind, case),
         "C18" => c18::replay(ctx, kind, case),
